@@ -19,6 +19,7 @@ import BumpVerif.Gen.FnVecDrain
 import BumpVerif.Gen.FnVecIntoIter
 import BumpVerif.Gen.FnVecFilter
 import BumpVerif.Gen.FnVecCopy
+import BumpVerif.Gen.FnSplice
 import BumpVerif.Gen.FnLossy
 import BumpVerif.Gen.FnStr
 import BumpVerif.Gen.FnBox
@@ -342,6 +343,21 @@ def main : IO Unit := do
       (match Gen.Fn.vec_split_off c i (v, w0) with
         | ((v', w'), .ok o) => s!"{repr v'} {repr (some o)} bad={repr w'.bad}" | ((v', w'), .bad why) => s!"{repr v'} none bad={repr (w'.flag why).bad}" | ((v', w'), _) => s!"{repr v'} none bad={repr w'.bad}"),
       (match V.splitOff c v i w0 with | (v', o, w') => s!"{repr v'} {repr o} bad={repr w'.bad}")))) out
+  -- `Drain::fill` / `Drain::move_tail` on vectors with a gap `[len, tail_start)` and a tail behind it
+  let gaps := vc.flatMap fun (c, v) => [0, 1, 2].flatMap fun cut => [0, 1, 2].filterMap fun tl =>
+    if cut ≤ v.len ∧ v.len + tl ≤ v.slots.length + 0 ∧ cut + 0 ≤ v.len then some (c, ({ v with len := v.len - cut } : V.VS), (⟨v.len, tl, 0, 0⟩ : V.Drain)) else none
+  out := add (firstDiff "Drain::fill" ((gaps.flatMap fun (c, v, d) => its.map fun it => (c, v, d, it)).filterMap fun (c, v, d, (itn, it)) =>
+    let m := V.Drain.fill c d (d.tailStart - v.len) v it w0
+    if m.2.2.1.bad.isEmpty then some (vtag c v ++ s!" tail_start={d.tailStart} iter={itn}",
+      (match Gen.Fn.drain_fill c d.tailStart d.tailLen it (v, w0) with
+        | ((v', w'), it', o) => s!"{repr v'} evs={repr w'.evs} bad={repr w'.bad} it={repr it'.remaining} {match o with | .ok b => toString b | .panic => "panic" | _ => "other"}"),
+      s!"{repr m.1} evs={repr m.2.2.1.evs} bad={repr m.2.2.1.bad} it={repr m.2.1.remaining} {match m.2.2.2 with | some b => toString b | none => "panic"}") else none)) out
+  out := add (firstDiff "Drain::move_tail" ((gaps.flatMap fun (c, v, d) => [0, 1, 5, 100].map fun ex => (c, v, d, ex)).filterMap fun (c, v, d, ex) =>
+    match V.Drain.moveTail c v d ex w0 with
+    | none => some (vtag c v ++ s!" tail=({d.tailStart},{d.tailLen}) extra={ex}", (match Gen.Fn.drain_move_tail c d.tailStart d.tailLen ex (v, w0) with | (_, .panic) => "panic" | (_, .ok n) => s!"ok {n}" | _ => "other"), "panic")
+    | some (v', d', w') => if w'.bad.isEmpty then some (vtag c v ++ s!" tail=({d.tailStart},{d.tailLen}) extra={ex}",
+        (match Gen.Fn.drain_move_tail c d.tailStart d.tailLen ex (v, w0) with | ((a, b), .ok n) => s!"{repr a} bad={repr b.bad} ok {n}" | (_, .panic) => "panic" | _ => "other"),
+        s!"{repr v'} bad={repr w'.bad} ok {d'.tailStart}") else none)) out
   -- the lossy UTF-8 chunker on all strings of up to 3 boundary bytes (and a few longer ones)
   let bs : List UInt8 := [0x00, 0x41, 0x7F, 0x80, 0x8F, 0x90, 0x9F, 0xA0, 0xBF, 0xC0, 0xC2, 0xDF, 0xE0, 0xE1, 0xEC, 0xED, 0xEE, 0xEF, 0xF0, 0xF1, 0xF3, 0xF4, 0xF5, 0xFF]
   let strs : List (List UInt8) := (bs.map fun a => [a]) ++ (bs.flatMap fun a => bs.map fun b => [a, b]) ++
